@@ -91,6 +91,31 @@ def showOutcome (r : Req) : Outcome → String
   | .noTargets => "503 raw=x"
   | .forwarded _ t _ strip => s!"fwd target={encB t} seen={encB (seenURI r strip)}"
 
+/-- the configuration as `list` shows it, on one token -/
+def showCfg (s : State) : String :=
+  let rows := (listServices s).map fun r =>
+    s!"{encB r.name}|{encB r.host}|{encB r.path}|{encB r.target}|{showBool r.tls}|{pauseName r.state}"
+  "[" ++ ";".intercalate (sortStrs rows) ++ "]"
+
+/-- the configuration a fresh process restores from this state's file -/
+def showRestored (s : State) : String :=
+  showCfg { core := restoreCore s.core.file, probing := [], idx := [] }
+
+/-- does `saveStateSnapshot` run in this command (T1 ties the call sites) -/
+def snapshots (r : Res) : Cmd → Bool
+  | .deploy .. => r == .ok || r == .hostInUse
+  | .rolloutDeploy .. => r == .ok || r == .hostInUse
+  | .restart => false
+  | _ => true
+
+def decLine (h : String) : Option (String × KV) :=
+  (decB h).bind fun b =>
+    match ((showB b).splitOn " ").filter (· ≠ "") with
+    | op :: rest => some (op, parseKV rest)
+    | [] => none
+
+instance : BEq Res := ⟨fun a b => decide (a = b)⟩
+
 def stepLine (s : State) (line : String) : State × String :=
   match (line.trimAscii.toString.splitOn " ").filter (· ≠ "") with
   | [] => (s, "")
@@ -125,6 +150,29 @@ def stepLine (s : State) (line : String) : State × String :=
           | some sns => "snapshot " ++ " ".intercalate (sortStrs (sns.map showSnap)) ++
               (if sns.isEmpty then "" else " keys=" ++ snapKeys) ++
               (if sns.any (·.split.isSome) then " rckeys=allowlist,percentage,percentage_split_point" else ""))
+    | "crashscan" =>
+      match (get kv "cmd").bind decLine with
+      | none => (s, "bad-op")
+      | some (cop, ckv) =>
+        match parseCmd cop ckv with
+        | none => (s, "bad-op")
+        | some c =>
+          let before := showRestored s
+          let (s', r) := step s c
+          let after := showRestored s'
+          if snapshots r c then
+            (s', s!"crashscan res={resName r} listed={before} created={before} written={before} renamed={after} final={after}")
+          else (s', s!"crashscan res={resName r} final={after}")
+    | "overlap" =>
+      match (get kv "a").bind decLine, (get kv "b").bind decLine with
+      | some (aop, akv), some (bop, bkv) =>
+        match parseCmd aop akv, parseCmd bop bkv with
+        | some ca, some cb =>
+          let (s1, ra) := step s ca
+          let (s2, rb) := step s1 cb
+          (s2, s!"overlap resa={resName ra} resb={resName rb} file={showRestored s2} live={showCfg s2}")
+        | _, _ => (s, "bad-op")
+      | _, _ => (s, "bad-op")
     | "probing" =>
       let ts := s.probing.flatten
       (s, "probing " ++ " ".intercalate (sortStrs (ts.map encB)))
